@@ -238,6 +238,40 @@ func (u *Unit) discharge(o *Obligation, cfg *solverCfg, seq int) {
 			quickDone = true
 		}
 	}
+	if !quickDone && o.Expect == "unsat" {
+		// attempt 0b: definitions of recursive spec functions the goal does not mention are dropped (their unfolding
+		// is a matching loop that can starve an otherwise easy goal; sound: fewer hypotheses)
+		var rax []Term
+		dropped := false
+		for _, a := range u.axioms {
+			if i := strings.Index(a, ":pattern ((sf$"); i >= 0 && strings.Contains(a, "(forall") {
+				name := a[i+len(":pattern (("):]
+				if j := strings.IndexAny(name, " )"); j > 0 {
+					name = name[:j]
+				}
+				if strings.Count(a, "("+name+" ") > 1 && !strings.Contains(o.Goal, "("+name+" ") {
+					dropped = true
+					continue
+				}
+			}
+			rax = append(rax, a)
+		}
+		if dropped {
+			rfile := filepath.Join(cfg.workDir, fmt.Sprintf("q%06d.norec.smt2", seq))
+			os.WriteFile(rfile, []byte(u.smtTextPC(o, o.PC, rax)), 0o644)
+			res, _, el := runSolver(solvers[0], rfile, 3*time.Second)
+			os.Remove(rfile)
+			if res == "unsat" {
+				o.Result, o.Backend, o.TimeS = "unsat", solvers[0].name+"(norec)", el
+				if cfg.useCache {
+					os.MkdirAll(filepath.Dir(cpath), 0o755)
+					data, _ := json.Marshal(cacheEntry{"unsat", o.Backend, el, ""})
+					os.WriteFile(cpath, data, 0o644)
+				}
+				return
+			}
+		}
+	}
 	if !quickDone && o.Expect == "unsat" && len(o.PC) > 12 {
 		// attempt 1: only the assumptions connected to the goal (sound: fewer hypotheses), short budget
 		for ai, att := range [][2]int{{1, 8}, {1, 5}, {2, 5}, {3, 4}} {
